@@ -175,7 +175,7 @@ func (w *World) runsInit(path string) bool {
 		return true
 	}
 	switch path {
-	case "golang.org/x/text/unicode/rangetable", "html", "unicode/utf8", "encoding/json":
+	case "golang.org/x/text/unicode/rangetable", "html", "unicode/utf8", "encoding/json", "bytes", "strings":
 		return true
 	}
 	return false
